@@ -11,6 +11,9 @@ Correspondence (implementation vs Lean model XsVerif/Model/Lazy.lean, driver drv
     tree that is left and len(_nsmaps); thin and not thin, modes 1-5, lazy depths 1-4,
   * the lazy error sequence at lazy depths 2-4 (errors that do not depend on document-wide tables) vs the model of the
     lazy driver at depth k,
+  * identity constraints declared on the root whose selected nodes lie in both phases of lazy validation (selectors
+    '.', depth-level, deeper, '|' and './/' mixes; key references in the other zone): duplicated / dangling values
+    reported by the real lazy run vs the two-phase table model (collect / mergeTables), lazy depth 1; depths 2-3 explored,
   * the eager error sequence re-assembled by the compositional validator of the model from the per-element
     error segments measured on the real run, and the lazy error sequence predicted by the port of the lazy
     driver (chunks looked up statically, skip rule, root with depth cut, references last).
@@ -444,6 +447,8 @@ def known_match(case: dict, detail: dict) -> Optional[str]:
         return 'C06-F11' if detail.get('same_multiset') and detail.get('order_is_lazyOrder') else None
     if kind == 'thin-path':      # thin lazy resource: position of the depth-1 step counted after the deletion of siblings
         return 'C06-F12' if detail.get('thin') and detail.get('path_is_thin_prediction') else None
+    if kind == 'identity-merge':   # a key/unique value counted once in the root pass and once in the chunks: not reported
+        return 'C06-F13' if detail.get('only_cross_duplicates') else None
     if kind == 'decode-prefixes':  # chunk values equal up to the prefixes of names, only for chunks with own declarations
         return 'C06-F10' if (detail.get('chunks_with_declarations') and detail.get('same_skeleton') and
                              detail.get('equal_up_to_prefixes') and
@@ -1180,6 +1185,197 @@ def compare(ctx: Ctx, reqs: list, pend: list, drv: Optional[Driver]) -> None:
                 ctx.mismatch('Local hypothesis', case, not info['nonlocal'], m['local'])
 
 
+# ---------------------------------------------------------------------------------------------------
+# identity constraints declared on the root whose selected nodes lie in both phases of lazy validation
+# (root pass: above the lazy depth; chunk phase: at / below it) - model: collect / mergeTables (Model/LazyLive.lean),
+# theorems merge_counts, merge_dangling, merge_dups_cross; finding C06-F13
+
+ZONE_SELECTORS = ['.', 'e', 'e/f', 'e/f/g', '.|e', 'e|e/f', './/f', '.|.//f', '.|e|e/f', './/e', '*', './/g', '.|e/f/g',
+                  'e/f|e/f/g', '.|.//g']
+_MERGE_VARIANT: Optional[str] = None
+ZONE_XSD = """<xs:schema xmlns:xs="http://www.w3.org/2001/XMLSchema">
+<xs:attributeGroup name="A"><xs:attribute name="k" type="xs:int"/><xs:attribute name="q" type="xs:int"/></xs:attributeGroup>
+<xs:element name="r"><xs:complexType><xs:sequence>
+ <xs:element name="e" minOccurs="0" maxOccurs="unbounded"><xs:complexType><xs:sequence>
+  <xs:element name="f" minOccurs="0" maxOccurs="unbounded"><xs:complexType><xs:sequence>
+   <xs:element name="g" minOccurs="0" maxOccurs="unbounded"><xs:complexType><xs:attributeGroup ref="A"/></xs:complexType></xs:element>
+  </xs:sequence><xs:attributeGroup ref="A"/></xs:complexType></xs:element>
+ </xs:sequence><xs:attributeGroup ref="A"/></xs:complexType></xs:element>
+</xs:sequence><xs:attributeGroup ref="A"/></xs:complexType>
+ <xs:%(kind)s name="U"><xs:selector xpath="%(ksel)s"/><xs:field xpath="@k"/></xs:%(kind)s>
+ <xs:keyref name="R" refer="U"><xs:selector xpath="%(rsel)s"/><xs:field xpath="@q"/></xs:keyref>
+</xs:element></xs:schema>"""
+
+
+def zone_select(doc: dict, selector: str) -> list:
+    """nodes (dicts with depth) picked by a selector of the XSD subset used here, document order"""
+    nodes = []
+
+    def walk(n):
+        nodes.append(n)
+        for c in n['cs']:
+            walk(c)
+    walk(doc)
+    picked = set()
+    for alt in selector.split('|'):
+        for n in nodes:
+            if alt == '.':
+                ok = n['depth'] == 0
+            elif alt == '*':
+                ok = n['depth'] == 1
+            elif alt.startswith('.//'):
+                ok = n['depth'] >= 1 and n['tag'] == alt[3:]
+            else:
+                steps = alt.split('/')
+                ok = n['depth'] == len(steps) and n['tag'] == steps[-1]      # names determine the depth here
+            if ok:
+                picked.add(n['id'])
+    return [n for n in nodes if n['id'] in picked]
+
+
+def gen_zone_doc(rng) -> tuple[bytes, dict]:
+    ids = [0]
+
+    def mk(tag, depth):
+        n = {'id': ids[0], 'tag': tag, 'depth': depth, 'cs': [], 'k': None, 'q': None}
+        ids[0] += 1
+        if rng.random() < 0.8:
+            n['k'] = rng.randint(1, 6)
+        if rng.random() < 0.4:
+            n['q'] = rng.randint(1, 7)
+        if depth < 3:
+            child = 'efg'[depth]
+            for _ in range(rng.choice([0, 1, 2, 2, 3] if depth < 2 else [0, 0, 1, 2])):
+                n['cs'].append(mk(child, depth + 1))
+        return n
+    doc = mk('r', 0)
+
+    def ser(n):
+        a = ''.join(f' {x}="{n[x]}"' for x in ('k', 'q') if n[x] is not None)
+        return f'<{n["tag"]}{a}>' + ''.join(ser(c) for c in n['cs']) + f'</{n["tag"]}>'
+    return ser(doc).encode(), doc
+
+
+def merge_variant() -> str:
+    """does the library report a key/unique value duplicated across the root pass and the chunks (finding C06-F13
+    repaired by notes/fixes/C06-lazy-identity-merge-duplicates.patch)?"""
+    global _MERGE_VARIANT
+    if _MERGE_VARIANT is None:
+        import io
+        import xmlschema
+        from xmlschema import XMLResource
+        sch = xmlschema.XMLSchema(ZONE_XSD % {'kind': 'unique', 'ksel': '.|e', 'rsel': 'e/f'})
+        errs = list(sch.iter_errors(XMLResource(io.BytesIO(b'<r k="1"><e k="1"/></r>'), lazy=1)))
+        _MERGE_VARIANT = 'patched' if errs else 'pinned'
+    return _MERGE_VARIANT
+
+
+DUP_RE = re.compile(r"^duplicated value \((\d+),\) for Xsd\w+\(name='U'\)")
+NF_RE = re.compile(r"^value \((\d+),\) not found for Xsd\w+\(name='U'\)(?: \((\d+) times\))?")
+
+
+def identity_zones(ctx: Ctx, drv: Optional[Driver]) -> None:
+    import io
+    import xmlschema
+    from xmlschema import XMLResource
+    reqs: list = []
+    pend: list = []
+    ctx.count('identity-merge-variant:' + merge_variant())
+    for _ in range(ctx.pick(60, 600)):
+        kind = ctx.rng.choice(['key', 'unique', 'unique'])
+        ksel = ctx.rng.choice(ZONE_SELECTORS)
+        rsel = ctx.rng.choice(ZONE_SELECTORS)
+        xsd = ZONE_XSD % {'kind': kind, 'ksel': ksel, 'rsel': rsel}
+        try:
+            schema = xmlschema.XMLSchema(xsd)
+        except Exception:  # noqa
+            ctx.count('zones:schema-rejected')
+            continue
+        for _ in range(ctx.pick(5, 8)):
+            xml, doc = gen_zone_doc(ctx.rng)
+            keyn = [n for n in zone_select(doc, ksel) if n['k'] is not None]
+            refn = [n for n in zone_select(doc, rsel) if n['q'] is not None]
+            try:
+                eager = sorted(canon_err(e) for e in schema.iter_errors(XMLResource(xml)))
+            except Exception:  # noqa
+                ctx.count('zones:eager-raises')
+                continue
+            for d in (1, 2, 3):
+                key = [[n['depth'] < d, n['k']] for n in keyn]
+                ref = [[n['depth'] < d, n['q']] for n in refn]
+                zones = {('root' if b else 'chunk') for b, _ in key} | {('root-ref' if b else 'chunk-ref') for b, _ in ref}
+                both = {'root', 'chunk'} <= zones or ('root' in zones and 'chunk-ref' in zones) or \
+                    ('chunk' in zones and 'root-ref' in zones)
+                ctx.count('zones:spanning-both-phases:%s' % both)
+                cross = sorted({v for _, v in key if [x for x in key if x[1] == v] in ([[True, v], [False, v]], [[False, v], [True, v]])})
+                for thin in (True, False):
+                    case = {'xsd': xsd, 'xml': xml.decode(), 'api': 'iter_errors(identity zones)', 'depth': d, 'thin': thin,
+                            'key selector': ksel, 'keyref selector': rsel}
+                    ctx.case(case, both, 'api:identity-zones')
+                    try:
+                        lz = sorted(canon_err(e) for e in schema.iter_errors(
+                            XMLResource(io.BytesIO(xml), lazy=d, thin_lazy=thin)))
+                    except Exception as ex:  # noqa
+                        if d == 1:
+                            ctx.failure('lazy validation raised', case, repr(ex))
+                        else:
+                            ctx.count(f'zones-depth{d}:raises')
+                        continue
+                    if d > 1:
+                        ctx.count(f'zones-depth{d}:%s' % ('same' if lz == eager else 'differs'))
+                    elif lz == eager:
+                        ctx.count('zones:lazy==eager')
+                    else:
+                        # the only listed difference: a key/unique value that occurs once in the root pass and once in a
+                        # chunk is not reported (C06-F13); everything else (a lost or an extra error) is a failure
+                        missing = list(eager)
+                        extra = []
+                        for x in lz:
+                            if x in missing:
+                                missing.remove(x)
+                            else:
+                                extra.append(x)
+                        want = sorted(str(v) for v in cross)
+                        got = sorted(DUP_RE.match(x[1]).group(1) for x in missing if DUP_RE.match(x[1]))
+                        detail = {'kind': 'identity-merge', 'eager-only': missing, 'lazy-only': extra,
+                                  'values counted once in the root pass and once in the chunks': cross,
+                                  'only_cross_duplicates': not extra and len(got) == len(missing) and got == want}
+                        fid = known_match(case, detail)
+                        if fid:
+                            ctx.known_hit(fid)
+                        else:
+                            ctx.failure('lazy validation reports other identity-constraint errors than full loading', case, detail)
+                    if d == 1 and thin:
+                        reqs.append({'op': 'idmerge', 'key': key, 'ref': ref, 'chunks': bool(doc['cs'])})
+                        pend.append(('idmerge', case, {'lazy': lz, 'eager': eager, 'cross': cross}))
+    answers = drv.query(reqs) if drv is not None else []
+    for p_, m in zip(pend, answers):
+        _, case, info = p_
+        ctx.traces += 1
+        if 'err' in m:
+            ctx.mismatch('driver error', case, None, m)
+            continue
+
+        def vals(errs, rx):
+            out = []
+            for x in errs:
+                mm = rx.match(x[1])
+                if mm:
+                    out.append((int(mm.group(1)), int(mm.group(2) or 1)) if rx is NF_RE else int(mm.group(1)))
+            return sorted(out)
+        model_dups = sorted(m['lazy_dups'] + (m['cross'] if merge_variant() == 'patched' else []))
+        if vals(info['lazy'], DUP_RE) != model_dups:
+            ctx.mismatch('duplicated values reported by lazy validation (two-phase tables)', case, vals(info['lazy'], DUP_RE), model_dups)
+        if vals(info['lazy'], NF_RE) != sorted((a, b) for a, b in m['lazy_dangling']):
+            ctx.mismatch('dangling key references reported by lazy validation (merged tables)', case,
+                         vals(info['lazy'], NF_RE), m['lazy_dangling'])
+        if vals(info['eager'], DUP_RE) != sorted(m['eager_dups']) or \
+                vals(info['eager'], NF_RE) != sorted((a, b) for a, b in m['eager_dangling']):
+            ctx.mismatch('identity tables of the full run', case, info['eager'], m)
+        if sorted(m['cross']) != info['cross']:
+            ctx.mismatch('values counted once in each phase', case, info['cross'], m['cross'])
+
+
 def family(ctx: Ctx, drv: Optional[Driver]) -> None:
     n_schemas = ctx.pick(150, 1500)
     n_docs = ctx.pick(5, 8)
@@ -1223,6 +1419,7 @@ def run(ctx: Ctx, driver_ok: bool) -> None:
     ctx.notes.append('XMLResource.iter lazy loop detected: %s (pinned = reversed post-order below the lazy depth, finding '
                      'C06-F11, theorem iter_lazy_order_pinned; patched = document order, theorem iter_lazy_order)' % iter_variant())
     corpus(ctx, drv)
+    identity_zones(ctx, drv)
     family(ctx, drv)
     ctx.extra['explanation'] = ('seeded random family; property claimed at lazy depth 1 (depths 2-4 explored: histogram '
                                 'explored-depth*); model of iter / iter_depth / iterfind / _clear / lazy driver compared at lazy '
@@ -1268,6 +1465,7 @@ def search(ctx: Ctx) -> None:
         saved = ctx.tier
         ctx.tier = 'thorough'
         try:
+            identity_zones(ctx, None)
             family(ctx, None)
         finally:
             ctx.tier = saved
@@ -1280,6 +1478,21 @@ def replay(ctx: Ctx, obj: dict) -> int:
         return 0
     ctx.known = list(ctx.known) + [e for e in load_findings() if e.get('property') == 'C06']
     xml = re.sub(r' n="\d+"', '', case['xml']).encode()
+    if case.get('api') == 'iter_errors(identity zones)':
+        import io
+        import xmlschema
+        from xmlschema import XMLResource
+        schema = xmlschema.XMLSchema(case['xsd'])
+        eager = sorted(canon_err(e) for e in schema.iter_errors(XMLResource(xml)))
+        lz = sorted(canon_err(e) for e in schema.iter_errors(
+            XMLResource(io.BytesIO(xml), lazy=case['depth'], thin_lazy=case['thin'])))
+        print('full loading :', eager)
+        print('lazy depth %d :' % case['depth'], lz)
+        print('identity merge variant of the library:', merge_variant())
+        same = lz == eager
+        print('JUDGEMENT:', 'same errors' if same else 'lazy validation reports other identity-constraint errors than full loading '
+              '(a difference consisting only of cross-phase duplicates is finding C06-F13)')
+        return 0 if same else 1
     drv = Driver('drv_c06') if (Path(Driver('drv_c06').path)).exists() else None
     run_one(ctx, drv, case['xsd'], xml, {})
     for m in ctx.mismatches[:3]:
